@@ -38,6 +38,12 @@ RULES = {
     'C04.f': 'the i32 handed to the store / increment and placed into emitted messages originates from the request\'s own '
              'field; literal -1 only for variants without a version',
     'C04.j': "an arm that replicates one key writes only that key: every Database.map write reachable from a Set / Remove / Increment arm outside the conflict resolver is keyed by the request's own key field (what the emitted message carries)",
+    'C04.k': 'a refused command is neither replicated nor turned into a success: in the replication table every refusal variant of the '
+             'handler\'s Response (Error, VersionError) leaves before the switch over the request — the table is reached only for '
+             'commands that were applied',
+    'C04.l': 'the replication table names the databases the handler snapshotted: in its Snapshot arm the session\'s selected database is '
+             'used only on the branch where the request\'s own list of names is empty (the handler\'s rule) — otherwise the primary '
+             'snapshots the named databases and the secondaries another one',
 }
 
 WRITE_KINDS = ('map-write', 'map-bulk-write', 'dbs-write', 'guarded-vec-push')
@@ -55,6 +61,8 @@ def run(ck, m):
     wrapper_verbatim(ck, m)
     own_id_rule(ck, m)
     one_key_per_message(ck, m)
+    refusal_not_replicated(ck, m)
+    snapshot_names_precedence(ck, m)
 
 
 def _run(ck, m):
@@ -524,3 +532,90 @@ def one_key_per_message(ck, m):
               'request\'s key, so the other change exists on the node that ran the arm and on no other — the nodes stay apart for good'
               % (v, other), sorted(other)[0] if other else '')
     ck.floor('C04.j', n, 3, 'replicated arms keyed by the request key')
+
+
+def refusal_not_replicated(ck, m, rule='C04.k'):
+    """C04.k (repeated as C02.i) — see RULES"""
+    P = m.prog
+    rb, rsw = m.replication_table()
+    RESP = 'nundb::bo::Response'
+    params = [i for i in range(1, rb.argc + 1) if rb.locals[i] == RESP]
+    refusals = ('Error', 'VersionError')
+    routed = {}
+    for pl in params:
+        for (sbi, tm, els, adt) in core.enum_switches(rb, pl, is_call=False):
+            if not adt.endswith('bo::Response') or not rb.dominates(sbi, rsw[0]):
+                continue
+            a = P.adts.get(adt) or {}
+            for v in a.get('variants', []):
+                if v['name'] not in refusals:
+                    continue
+                tgt = tm.get(str(v['discr']), els)
+                away = rsw[0] not in rb.reach_from([tgt], include_start=True)
+                routed[v['name']] = routed.get(v['name'], False) or away
+    for v in refusals:
+        ok = routed.get(v, False)
+        ck.ob(rule, short(rb.id), 'refusal-leaves-before-the-table:%s' % v, ok,
+              'a %s answer of the handler is handed back before the replication table is consulted' % v if ok else
+              'a %s answer of the handler reaches the replication table: the refused command is replicated to the other nodes and the client is '
+              'answered by the table\'s own success — of two writers presenting the same base version both are told they succeeded, and the '
+              'loser\'s write, refused by the store, travels to the secondaries' % v, '%s:%s' % (rb.file, rb.line))
+
+
+def snapshot_names_precedence(ck, m):
+    """C04.l — see RULES"""
+    P = m.prog
+    rb, rsw = m.replication_table()
+    if 'Snapshot' not in rsw[1]:
+        ck.undecided('C04.l', short(rb.id), 'anchor', 'no Snapshot arm in the replication table')
+        return
+    region = m.arm_region(rb, rsw, 'Snapshot')
+    opt = [i for i in range(1, rb.argc + 1) if rb.locals[i].startswith('std::option::Option<std::string::String>')
+           or rb.locals[i].startswith('&std::option::Option<std::string::String>')]
+    if not opt:
+        ck.undecided('C04.l', short(rb.id), 'anchor', 'the selected-database parameter (Option<String>) was not found')
+        return
+    # tests "the request carries no names"
+    empties = []
+    for bi in sorted(region):
+        t = rb.term(bi)
+        if t['k'] == 'call' and callee_decl(t).split('::')[-1] in ('is_empty',) and t['args'] and any(
+                r[0] == 'param' and any(q[0] == 'f' and q[2] == 'db_names' for q in r[-1]) for r in origins(rb, t['args'][0])):
+            for (sbi, tt, ft) in core.bool_switches(rb, bi):
+                empties.append((tt, ft))
+        # `db_names.len() == 0` / `!= 0` / `> 0` say the same
+        if t['k'] == 'call' and callee_decl(t).split('::')[-1] == 'len' and t['args'] and not t['d'].get('p') and any(
+                r[0] == 'param' and any(q[0] == 'f' and q[2] == 'db_names' for q in r[-1]) for r in origins(rb, t['args'][0])):
+            for bl in rb.blocks:
+                for s in bl['s']:
+                    if s['k'] == 'assign' and s['r']['k'] == 'bin' and s['r']['op'] in ('Eq', 'Ne', 'Gt') and \
+                            any(r[0] == 'call' and r[1] == bi for r in origins(rb, s['r']['a'], stop_at_calls=True)) and \
+                            [const_val(r) for r in origins(rb, s['r']['b'])] == [0]:
+                        for (sbi, tt, ft) in core.bool_switches(rb, local=s['l']['l']):
+                            empties.append((tt, ft) if s['r']['op'] == 'Eq' else (ft, tt))
+    # uses of the selected database inside the arm (logging aside)
+    uses = []
+    for bi in sorted(region):
+        t = rb.term(bi)
+        if t['k'] == 'call' and not is_log(t) and not callee_decl(t).startswith('std::fmt::'):
+            if any(r[0] == 'param' and r[1] in opt for a in t['args'] for r in origins(rb, a, stop_at_calls=True)):
+                uses.append(bi)
+        for s in rb.blocks[bi]['s']:
+            if s['k'] == 'assign' and s['r']['k'] == 'discr' and s['r']['p']['l'] in opt:
+                uses.append(bi)
+    # uses that only feed a log line do not count
+    def feeds_only_logs(bi):
+        t = rb.term(bi)
+        if t['k'] != 'call' or t['d'].get('p'):
+            return False
+        dl = t['d']['l']
+        users = [x for x, t2 in rb.calls() if any((a.get('m') or a.get('c') or {}).get('l') == dl for a in t2['args'])]
+        return bool(users) and all(is_log(rb.term(x)) or callee_decl(rb.term(x)).startswith('std::fmt::') for x in users)
+    uses = sorted({u for u in uses if not feeds_only_logs(u)})
+    ok = bool(empties) and bool(uses) and all(any(rb.dominates(tt, u) and not rb.dominates(ft, u) for tt, ft in empties) for u in uses)
+    ck.ob('C04.l', short(rb.id), 'Snapshot:selected-database-only-without-names', ok,
+          'the selected database stands in only where the request names no database' if ok else
+          'the Snapshot arm of the replication table uses the session\'s selected database outside the "no names given" branch (tests of '
+          'db_names.is_empty(): %d, uses of the selected database: %s): `snapshot false B` from a session that has A selected snapshots B '
+          'on the primary and A on every secondary — B stays unsaved there and the nodes\' disk states part' % (len(empties), [rb.loc(u) for u in uses]),
+          rb.loc(uses[0]) if uses else '%s:%s' % (rb.file, rb.line))
